@@ -31,9 +31,13 @@ class C10(Prop):
     assumptions = ['tables are rectangular (the property\'s domain); cells contain no lists (so == and the Comparable '
                    'equivalence coincide)']
 
-    def _call(self, opn, key, pre, bs, t, extra):
+    def _call(self, opn, key, pre, bs, t, extra, meta=None):
         import petl as etl
         src = [list(r) for r in t]
+        if meta and meta.get('mixed'):
+            # presorted input whose rows alternate between lists and tuples
+            src = [src[0]] + [list(r) if i % 2 else tuple(r) for i, r in enumerate(etl.sort(src, key).skip(1))]
+            pre = True
         kw = dict(presorted=pre, buffersize=bs)
         if opn == 'duplicates':
             return etl.duplicates(src, key, **kw)
@@ -65,6 +69,9 @@ class C10(Prop):
             for opn in ('duplicates', 'unique', 'distinct'):
                 yield Case('dedup', (opn, key, False, bs, t, None))
             yield Case('dedup', ('distinct_count', key, False, bs, t, 'n'))
+            for opn in ('duplicates', 'unique', 'distinct'):
+                yield Case('dedup', (opn, key, False, None, t, None), {'mixed': True})
+            yield Case('dedup', ('distinct_count', key, False, None, t, 'n'), {'mixed': True})
             if key is not None:
                 extra = (rng.choice([None, None, 0, 'a']), rng.choice([None, None, t[0][-1], (t[0][0],)]),
                          rng.choice([None, None, t[0][-1], (t[0][0], t[0][-1])]))
@@ -102,7 +109,7 @@ class C10(Prop):
         if case.op == 'dedup':
             opn, key, pre, bs, t, extra = case.arg
             try:
-                v = self._call(opn, key, pre, bs, t, extra)
+                v = self._call(opn, key, pre, bs, t, extra, case.meta)
             except Exception as e:
                 from ..core import obs_exc
                 return obs_exc(e)
